@@ -542,6 +542,13 @@ class BuiltinModelLoaderGen(ModelLoaderGen):
                             {state.v_extra}[key] = {state.v_data}[key]
                     """
                     state.builder.empty_line()
+                    if not state.path and self._name_layout.extra_move == ExtraKwargs():
+                        # only strings can be passed as names of keyword arguments
+                        state.builder += f"""
+                            if not all(type(key) is str for key in {state.v_extra}):
+                                {state.emit_error(f"TypeLoadError(str, next(key for key in {state.v_extra} if type(key) is not str))")}
+                        """
+                        state.builder.empty_line()
 
             if self._can_collect_extra:
                 self._gen_add_self_extra_to_parent_extra(state)
